@@ -195,6 +195,30 @@ def customize (v : Variant) (ps : List Pattern) : Except Err (List Pattern) :=
       .ok [z, z, y, { x with ss := [8, 64] }, { emptyPat with ss := [8, 64] }]
     | _ => .error .notImplemented         -- other operand counts: IndexError / never produced
 
+/-- position, in the list returned by `set_stride_patterns` (= one pattern per streamer of the accelerator), of the
+    pattern that serves operand `i` of an op with `nops` operands (specification side; the harness uses the same table
+    to pick the pattern the oracle judges) -/
+def dataIndex (v : Variant) (nops i : Nat) : Nat :=
+  match v with
+  | .gemmx out32 _ _ =>
+    if nops = 3 then (if out32 then [0, 1, 4] else [0, 1, 2]).getD i 0
+    else if nops = 4 then (if out32 then [0, 1, 3, 4] else [0, 1, 3, 2]).getD i 0
+    else [3, 2].getD i 0
+  | .xdmaAdd => [0, 0, 1].getD i 0
+  | _ => i
+
+/-- `SNAXGEMMXAccelerator.get_streamers(op)`: which streamers of the configuration (A, B, D8, C, D32 = 0..4) serve the
+    operands of an op with `nops` patterns whose last stream has an `outBits`-bit integer element type -/
+def gemmxStreamers (nops outBits : Nat) : Except Err (List Nat) :=
+  if nops = 3 then
+    if outBits = 32 then .ok [0, 1, 4] else if outBits = 8 then .ok [0, 1, 2] else .error .notImplemented
+  else if nops = 4 then
+    if outBits = 32 then .ok [0, 1, 3, 4] else if outBits = 8 then .ok [0, 1, 3, 2] else .error .notImplemented
+  else .ok [3, 2]
+
+/-- `AddExtension.get_streamers`: both inputs on the reader, the output on the writer -/
+def xdmaAddStreamers : List Nat := [0, 0, 1]
+
 /-- the stride patterns of the final `snax_stream.streaming_region` -/
 def finalPatterns (v : Variant) (ps : List Pattern) : Except Err (List Pattern) :=
   (customize v ps).map fun l => l.map Pattern.canonicalize
